@@ -79,3 +79,10 @@ CHECKS["C14"] = dict(
     text="The groups of the real _END_PATTERN are harvested; z3 decides for lines of any length which pairs commute, the module is imported under 8 (quick) / 24 (thorough) PYTHONHASHSEED values and, when two pattern texts differ, z3 produces a line on which the two languages differ, which is replayed through extract_reuse_info under both seeds. CrossHair confirms over all paths that ProjectReport.generate + _find_licenses give the same normalised report for every order of 3 files and several orders of the LICENSES listing, and that NestedReuseTOML gives the same result for permuted reuse_tomls (3 levels x 13 shapes).",
     note="PARTIAL: real process scheduling (mp.Pool), pickling, the per-worker dep5 re-parse, real readdir order, cwd and root spelling are OS-level and outside the claim. Fixed: set-ordered _END_PATTERN (091a0b8) - the check reports it again if it returns.",
 )
+
+CHECKS["C20"] = dict(
+    engine="XH+PYRE",
+    technique="symbolic execution (CrossHair + z3) of the real notice builder/merger with the real copyright patterns executed by an exact regex interpreter (PYRE) on symbolic strings",
+    text="For each of the 10 prefix styles x year forms x holders with one free character (ANY code point) at the start, middle or end - and two free characters at the end - CrossHair confirms over all paths that make_copyright_line's output is recognised by the first matching real pattern with exactly that prefix, year and holder, and that a holder which already is a notice comes back verbatim. For every pair of notices over 4 holders x 4 prefixes x 5 year forms, and triples of one holder, it confirms that merge_copyright_lines keeps the holder set, gives each holder one line and a year range spanning all stated years.",
+    note="PYRE is validated against re on every run (repository test literals + generated lines; disagreement = harness error); fully concrete subjects go to the real compiled pattern. Year digits are concrete forms (symbolic digits exceeded every budget). Known finding: a holder ending like a comment terminator is read back truncated.",
+)
